@@ -63,6 +63,14 @@ def run(ck):
             jobs.append({"id": base_id + 3, "tree": btree, "op": {"k": "create", "path": H(bp + "/newf"), "type": "file", "mode": 0o644}, "meta": {"path": bp}})
             jobs.append({"id": base_id + 4, "tree": btree, "op": {"k": "remove_file", "path": H(bp + "/f")}, "meta": {"path": bp}})
             jobs.append({"id": base_id + 5, "tree": btree, "op": {"k": "readlink", "path": H(bp)}, "meta": {"path": bp}})
+    # the shape of link bodies (empty components, trailing slashes on files / directories / links), under several kinds of operation
+    for i, (stree, sp) in enumerate(gen.link_body_shape_cases()):
+        base_id = 970000 + i * 10
+        jobs.append({"id": base_id, "tree": stree, "op": {"k": "resolve", "path": H(sp)}, "meta": {"path": sp}})
+        jobs.append({"id": base_id + 1, "tree": stree, "op": {"k": "resolve", "path": H(sp), "nofollow": True}, "meta": {"path": sp}})
+        jobs.append({"id": base_id + 2, "tree": stree, "op": {"k": "open", "path": H(sp), "flags": O["RDONLY"]}, "meta": {"path": sp}})
+        jobs.append({"id": base_id + 3, "tree": stree, "op": {"k": "mkdir_all", "path": H(sp + "/m1"), "mode": 0o755}, "meta": {"path": sp}})
+        jobs.append({"id": base_id + 4, "tree": stree, "op": {"k": "create", "path": H(sp + "/newf"), "type": "file", "mode": 0o644}, "meta": {"path": sp}})
     for j in jobs:
         j["trace"] = False
         j.setdefault("snap", "all")
